@@ -291,6 +291,8 @@ func init() {
 		var sb strings.Builder
 		sb.WriteString("/- GENERATED from the repository's working tree by `verifharness dump-tables diamclient` — do not edit. -/\n")
 		sb.WriteString("import ChfVerif.Model.DiamClient\nnamespace Chf.Gen\nopen Chf.DiamClient\n\n")
+		sitesLean, serial := clientCallSitesLean()
+		sb.WriteString(sitesLean)
 		for _, c := range []struct{ name, file, send, handler string }{
 			{"abmfClient", filepath.Join("internal", "abmf", "abmf.go"), "SendAccountDebitRequest", "HandleCCA"},
 			{"ratingClient", filepath.Join("internal", "rating", "rating.go"), "SendServiceUsageRequest", "HandleSUA"},
@@ -301,8 +303,8 @@ func init() {
 				os.Exit(1)
 			}
 			cf.watchdog = astWatchdog(cf.clientField)
-			fmt.Fprintf(&sb, "/-- %s: %s / %s; internal/context: the sm.Client in field %q -/\ndef %s : Cfg := ⟨%v, %v, %v, %v, %d, %v, %v, %d⟩\n\n", c.file, c.send, c.handler,
-				cf.clientField, c.name, cf.closesConn, cf.ownChan, cf.buffered, cf.nonBlocking, cf.timeoutMs, cf.watchdog, cf.syncDial, cf.dialDeadlineMs)
+			fmt.Fprintf(&sb, "/-- %s: %s / %s; internal/context: the sm.Client in field %q; serial: no call site above is async -/\ndef %s : Cfg := ⟨%v, %v, %v, %v, %d, %v, %v, %d, %v⟩\n\n", c.file, c.send, c.handler,
+				cf.clientField, c.name, cf.closesConn, cf.ownChan, cf.buffered, cf.nonBlocking, cf.timeoutMs, cf.watchdog, cf.syncDial, cf.dialDeadlineMs, serial[c.send])
 		}
 		sb.WriteString("end Chf.Gen\n")
 		fmt.Print(sb.String())
